@@ -70,8 +70,8 @@ def run_all(cases):
 
 def build_cases(ctx):
     rng = ctx.rng
-    cases = fc.misc_cases(rng, ctx.quick)
-    cases += fc.func_cases(rng, ctx.n(3000, 0), not ctx.quick)
+    cases = fc.func_cases(rng, ctx.n(3000, 0), not ctx.quick)
+    cases += fc.misc_cases(rng, ctx.quick)
     for n, m, k in ((4, 1, ctx.n(40, 400)), (4, 2, ctx.n(40, 400)), (5, 1, ctx.n(6, 60))):
         for _ in range(k):
             cases.append(fc.func_case(n, m, [[rng.random() < 0.5 for _ in range(2 ** n)] for _ in range(m)]))
@@ -124,7 +124,7 @@ def correspondence(ctx, model_ok):
     r._cases = cases
     if model_ok:
         t0 = time.time()
-        bad = coqrun.run_cases(ID, 'func', fc.HEADER, terms, 'check_fcase', fc.CASE_TYPE, shard_bytes=400000)
+        bad = coqrun.run_cases(ID, 'func', fc.HEADER, terms, 'check_fcase', fc.CASE_TYPE, shard_bytes=100000)
         r.notes.append(f'model evaluation: {time.time() - t0:.1f}s')
         for i in bad[:20]:
             r.disagreements.append({'name': 'function protocol (' + kept[i]['kind'] + '): model vs implementation',
@@ -142,6 +142,10 @@ def oracle(case):
 
 def classify(case, msg):
     return msg.split(':')[0]
+
+
+def shrink(case, msg):
+    return fc.shrink(case, msg)
 
 
 def search(ctx, budget_s):
